@@ -79,6 +79,8 @@ order_st = st.one_of(
     st.just("shipped"),
     st.permutations(M.SHIPPED_ORDER),
     st.lists(st.sampled_from(M.SHIPPED_ORDER), min_size=1, max_size=9, unique=True),
+    # ... and lists that name the other two protocol classes the package ships
+    st.lists(st.sampled_from(M.ALL_CLASSES), min_size=1, max_size=11, unique=True),
 )
 
 
